@@ -131,5 +131,7 @@ Proof.
   - now apply sim_aarch64.
   - rewrite Hfmt. destruct v; reflexivity.
   - rewrite Hfmt. destruct v; reflexivity.
+  - rewrite Hfmt. destruct v; cbn [a64_form] in Hform;
+      repeat (destruct Hform as [Hf | Hform]; [rewrite Hf; cbn; lia | ]); rewrite Hform; cbn; lia.
   - cbn [af_check af_aarch64]. split; [lia|]. split; [apply Hff|]. lia.
 Qed.
